@@ -508,7 +508,10 @@ def proves(ctx, cond):
         return False
     if hasattr(ctx, '_budget'):
         ctx._budget()
-    return ctx.solver.check(z3.Not(c)) == z3.unsat
+    try:
+        return ctx.solver.check(z3.Not(c)) == z3.unsat
+    except z3.Z3Exception:
+        return False          # the solver gave up ('reached max unfolding' of the sequence procedure): not proved
 
 
 def small_int_case(ctx, v, lo=0, hi=80, soft=False):
